@@ -9,7 +9,10 @@ p = os.path.join(V, "tools", "not_applicable.json")
 if os.path.exists(p):
     na_reasons = json.load(open(p))
 checks, claimed = [], set()
+ready = set(l.strip() for l in open(os.path.join(V, "tools", "claimed.txt")) if l.strip() and not l.startswith("#"))
 for pid in props:
+    if pid not in ready:
+        continue
     hp = os.path.join(V, "harness", pid, "harness.json")
     if not os.path.exists(hp):
         continue
